@@ -13,7 +13,9 @@
 EXTENDS GBValues, TLC
 
 CONSTANTS Vals, MaxLen, MaxThreads,
-          EmptyBlockReadsGarbage   \* deviation D19: an empty block yields an arbitrary value instead of null
+          EmptyBlockReadsGarbage,  \* deviation D19: an empty block yields an arbitrary value instead of null
+          SplitDropsTail           \* deviation: block bounds computed in floating point; the last bound falls one short
+                                   \* for some (length, thread count) pairs (modelled: whenever length = threads + 1)
 
 Fns == {"sum", "sumsq", "count", "min", "max"}
 
@@ -25,7 +27,10 @@ RECURSIVE OffsetsN(_, _, _)
 OffsetsN(sz, j, acc) == IF j > Len(sz) THEN <<>> ELSE <<acc>> \o OffsetsN(sz, j + 1, acc + sz[j])
 BlocksOf(a, k) == LET sz == SplitSizesN(Len(a), k)
                       off == OffsetsN(sz, 1, 0)
-                  IN  [j \in 1..k |-> SubSeq(a, off[j] + 1, off[j] + sz[j])]
+                      short(j) == IF SplitDropsTail /\ j = k /\ Len(a) = k + 1 THEN 1 ELSE 0
+                  IN  [j \in 1..k |-> SubSeq(a, off[j] + 1, off[j] + sz[j] - short(j))]
+RECURSIVE CatN(_, _)
+CatN(bs, j) == IF j > Len(bs) THEN <<>> ELSE bs[j] \o CatN(bs, j + 1)
 
 RECURSIVE AllArrs(_)
 AllArrs(n) == IF n = 0 THEN {<<>>} ELSE {Append(s, v) : s \in AllArrs(n - 1), v \in Vals \cup {Null}}
@@ -65,4 +70,6 @@ Spec == Init /\ [][Next]_nvars
 DefFn(f, a) == CASE f = "sum" -> DefSum(a) [] f = "sumsq" -> DefSumSq(a) [] f = "count" -> DefCount(a)
                  [] f = "min" -> DefMin(a) [] f = "max" -> DefMax(a)
 ResultIsDef == pc = "done" => result = DefFn(fn, arr)
+(* the blocks are a partition of the array into consecutive runs: every element is in exactly one block, in order *)
+BlocksPartition == CatN(blocks, 1) = arr /\ Len(blocks) = nthreads
 =============================================================================
